@@ -6,7 +6,7 @@ CONSTANTS
   MaxW = 2
   WFull = 2
   RecvMax = 1
-  Hows = {"close", "atexit"}
+  HowSets = {{"close", "atexit"}}
   MaxClose = 1
 PROPERTY Dispatch
 PROPERTY CloseTerminates
